@@ -190,6 +190,16 @@ def c01_family(tier, n):
 
             out.append(scn(f'join2+ephsrc/{p1}/{p2}/{order}', fs, quiet_ms=600))
 
+    # the side channel's ids grow faster than the join's (a relay that drops every other id of a paced generator): every side message the
+    # join reads after its first set is ahead of the id being assembled, also while one joined source is complete and the other is not
+    for p1, p2 in [(0, 30)]:
+        for order in ['side-last', 'side-first']:
+            srcs = ['s1', 's2;main>other', 'sk?;main>side']
+            out.append(scn(f'join2+ephskip/{p1}/{p2}/{order}',
+                           [src(n, 's1', period=p1, required='snk'), src(n, 's2', period=p2, required='snk'),
+                            src(4 * n, 'gen', period=20, required='sk'), relay('sk', ['gen'], [('skip', [1, 3, 5, 7, 9, 11, 13, 15])], required='drain'),
+                            sink('drain', ['sk']), sink('snk', srcs if order == 'side-last' else srcs[2:] + srcs[:2])], quiet_ms=600))
+
     # join of two independent chains, one with a skipping relay, the other slow (a timed-out recv must not forget an adopted id)
     for beh in ['skip1', 'skip02']:
         for p2 in [0, 60, 150]:
@@ -674,6 +684,21 @@ def c05_family(tier, n):
             fs = [src(n, required='snk,lis0', period=40), sink('snk', ['src']), sink('lis0', [f'src{m}'], lis_behs[lb])]
             out.append(timely(scn(f'listen-required/{m}/{lb}', fs), quiet=700))
 
+    # listeners on the branches of a balancing publisher: a branch shared by a slow worker and a fast synchronized logger (it is ready only
+    # when both have asked), or plain branches, with a '?' / '??' listener registering before or after the synchronized consumers. Checked
+    # with the load-balancing oracle (request accounting per branch: a listener's request never stands in for a synchronized consumer's)
+    for speeds in [(130, 0), (130, 40)]:
+        for m in ['?', '??']:
+            for late in [0, 60]:
+                for shared in [True, False]:
+                    fs = balance(n + 1, speeds)
+
+                    if shared:
+                        fs.append(sink('log0', ['spl;main>logged']))
+
+                    fs.append({**sink('watch', [f'spl{m}']), 'start_at': late})
+                    out.append({**timely(scn(f'bal-listen/{speeds}/{m}/late{late}/{"shared" if shared else "plain"}', fs), quiet=900), 'balanced_listen': True})
+
     # killed listener (hard kill at every step of the reference run)
     for m in ['?', '??']:
         fs = base(40) + [sink('lis0', [f'src{m}'])]
@@ -743,6 +768,15 @@ def c07_family(tier, n):
                 fs = balance(n + 3, speeds)
                 fs.append({**sink('watch', [branch]), 'start_at': late})
                 out.append(scn(f'bal2-qwatcher/{speeds}/late{late}/{branch}', fs))
+
+    # a branch shared by a slow worker and a fast synchronized logger, plus a '?' watcher that registers before / after them: the branch is
+    # ready only when BOTH synchronized consumers have asked, whatever the listener does
+    for speeds in [(130, 0), (130, 40)]:
+        for late in [0, 60]:
+            fs = balance(n + 3, speeds)
+            fs.append(sink('log0', ['spl;main>logged']))
+            fs.append({**sink('watch', ['spl?']), 'start_at': late})
+            out.append(scn(f'bal2-qwatcher-shared/{speeds}/late{late}', fs))
 
     # a branch that has only a '?' / '??' listener and no worker (worker absent or starting late)
     for m in ['?', '??']:
